@@ -31,8 +31,9 @@ RULE = ("generated dataclasses with 1-4 int fields (required / defaulted / stati
         "raw, AliasedStr, tuple, empty paths; declared in the class, a base class or as an external function; optional `validators=` argument) "
         "x every {absent, valid, invalid} assignment x every pass/fail vector of the validators that can be invoked x optional unexpected key "
         "x dynamic aliaser. A case = (class spec, field statuses, failing set, extra key); all cases are non-trivial (>= 1 validator); "
-        "distinct by hash of the case. Thorough: every core shape (<=3 fields, <=3 validators, non-empty deps, optional one-field discard) "
-        "is executed completely in plain form and in one seeded decorated form; quick: seeded sample of the decorated space up to 4x4.")
+        "distinct by hash of the case. Thorough: every core shape (<=3 fields, <=3 validators, non-empty deps, optional one-field discard; up to renaming of same-kind fields) "
+        "is executed completely in plain form, then random decorated 4x4 programs, then one seeded decorated form of every core shape (complete table; "
+        "cut by the time cap only on an overloaded machine, reported in coverage); quick: seeded sample of the decorated space up to 4x4.")
 ASSUMPTIONS = ["validators only raise ValidationError / yield errors; helper methods and properties are plain attribute readers",
                "termination is a bounded claim: each call finishes within 60000 Python function entries and without RecursionError "
                "(recursion limit 500, data depth <= 2); wall-clock watchdog separate (inconclusive)",
@@ -570,20 +571,16 @@ def run(env):
                 spec = decorate(shape, f"K{env.shard}_{j}", rng)
             run_program(env, spec, rng, f"quick#{env.shard}.{j}", n_cases=24)
         return
-    # thorough: (a) the complete core space, plain + one seeded decoration; (b) random 4x4 decorated programs
-    done = 0
-    for i, shape in core_shapes(3, 3):
-        if i % env.nshards != env.shard:
-            continue
+    # thorough: (A) the complete core space in plain form; (B) random decorated programs up to 4x4;
+    #           (C) one seeded decorated form of every core shape with its complete case table, as far as the time cap allows
+    mine = [(i, shape) for i, shape in core_shapes(3, 3) if i % env.nshards == env.shard]
+    for i, shape in mine:
         if env.out_of_time():
             env.notes.append(f"time cap reached in the exhaustive part at shape {i}")
-            env.inconclusive.append("exhaustive core enumeration cut by the time cap")
+            env.inconclusive.append("exhaustive core enumeration (plain form) cut by the time cap")
             break
         rng = random.Random(h64("c10", env.seed, i))
         run_program(env, plain_spec(shape, f"P{i}"), rng, f"core#{i}/plain", n_cases=None, extras=False)
-        spec = decorate(shape, f"D{i}", rng)
-        run_program(env, spec, rng, f"core#{i}/decorated", n_cases=None, extras=False, then_extras=6)
-        done += 1
         env.count("core_shapes_done")
     nprog = env.n(0, 12000)
     for j in range(nprog):
@@ -594,15 +591,31 @@ def run(env):
         shape = random_shape(rng)
         spec = decorate(shape, f"R{env.shard}_{j}", rng)
         run_program(env, spec, rng, f"random#{env.shard}.{j}", n_cases=32)
+    # seeded order, so that a cut by the time cap still leaves a uniform sample of the shapes
+    order = list(mine)
+    random.Random(h64("c10-order", env.seed, env.shard)).shuffle(order)
+    for i, shape in order:
+        if env.out_of_time():
+            env.notes.append("time cap reached in the decorated pass over the core shapes (coverage reports how many were done)")
+            break
+        rng = random.Random(h64("c10-dec", env.seed, i))
+        spec = decorate(shape, f"D{i}", rng)
+        run_program(env, spec, rng, f"core#{i}/decorated", n_cases=None, extras=False, then_extras=6)
+        env.count("core_shapes_decorated_done")
 
 
 def finish_coverage(cov, counters, tier):
     total = core_count(3, 3)
     if tier == "thorough":
         done = counters.get("core_shapes_done", 0)
-        cov["exhaustive"] = {"sub_space": "core shapes: 1..3 fields (required-first), 1..3 validators, non-empty dependency set, optional one-field discard; "
-                                          "x every {absent,valid,invalid}^fields x every failing subset of the invocable validators; plain form and one seeded decorated form",
-                             "shapes_total": total, "shapes_done": done, "complete": done == total}
+        dec = counters.get("core_shapes_decorated_done", 0)
+        cov["exhaustive"] = {"sub_space": "core shapes up to renaming of fields of the same kind: 1..3 fields (required-first), 1..3 validators, non-empty "
+                                          "dependency set, optional one-field discard; x every {absent,valid,invalid}^fields x every failing subset of the "
+                                          "invocable validators; plain form (direct reads, raise style, no alias)",
+                             "shapes_total": total, "shapes_done": done, "complete": done == total,
+                             "decorated_form": {"what": "one seeded decorated form of each core shape, complete status x class-validator failing-subset table "
+                                                        "(+ sampled outcomes of function validators on field values, + 6 cases with an unexpected key)",
+                                                "shapes_done": dec, "complete": dec == total}}
     else:
         cov["exhaustive"] = False
         cov["core_shapes_total_in_thorough"] = total
